@@ -504,6 +504,157 @@ def bytes_oracle(fmt, data, wf):
     return None
 
 
+# ---------------------------------------------------------------------------------------- fragments
+# observation points json.loads(cls=decoder) and read_aas_xml_element: single (nested) objects, damaged the same way
+
+XML_CONSTRUCT = {
+    "property": "PROPERTY", "range": "RANGE", "blob": "BLOB", "file": "FILE",
+    "multiLanguageProperty": "MULTI_LANGUAGE_PROPERTY", "referenceElement": "REFERENCE_ELEMENT",
+    "relationshipElement": "RELATIONSHIP_ELEMENT", "annotatedRelationshipElement": "ANNOTATED_RELATIONSHIP_ELEMENT",
+    "submodelElementCollection": "SUBMODEL_ELEMENT_COLLECTION", "submodelElementList": "SUBMODEL_ELEMENT_LIST",
+    "entity": "ENTITY", "operation": "OPERATION", "capability": "CAPABILITY", "basicEventElement": "BASIC_EVENT_ELEMENT",
+    "qualifier": "QUALIFIER", "extension": "EXTENSION", "key": "KEY", "reference": "REFERENCE", "semanticId": "REFERENCE",
+    "administration": "ADMINISTRATIVE_INFORMATION", "assetInformation": "ASSET_INFORMATION",
+    "specificAssetId": "SPECIFIC_ASSET_ID", "embeddedDataSpecification": "EMBEDDED_DATA_SPECIFICATION",
+    "dataSpecificationIec61360": "DATA_SPECIFICATION_IEC61360", "submodel": "SUBMODEL",
+    "assetAdministrationShell": "ASSET_ADMINISTRATION_SHELL", "conceptDescription": "CONCEPT_DESCRIPTION",
+    "valueReferencePair": "VALUE_REFERENCE_PAIR", "valueList": "VALUE_LIST", "description": "MULTI_LANGUAGE_TEXT_TYPE",
+    "displayName": "MULTI_LANGUAGE_NAME_TYPE", "defaultThumbnail": "RESOURCE", "dataSpecificationContent": "DATA_SPECIFICATION_CONTENT",
+}
+
+
+def collect_fragments(sources, per_type=3, max_size=4000):
+    import c09_damage as D
+    from lxml import etree
+    frags = {"json": [], "xml": []}
+    count = {}
+    for src in sources:
+        if src["fmt"] == "json":
+            def go(v):
+                if isinstance(v, dict):
+                    mt = v.get("modelType")
+                    if isinstance(mt, str) and count.get(("j", mt), 0) < per_type and len(json.dumps(v)) <= max_size:
+                        count[("j", mt)] = count.get(("j", mt), 0) + 1
+                        frags["json"].append(copy.deepcopy(v))
+                    for x in v.values():
+                        go(x)
+                elif isinstance(v, list):
+                    for x in v:
+                        go(x)
+            go(src["doc"])
+        else:
+            for el in src["doc"].iter():
+                name = D._lname(el)
+                if name in XML_CONSTRUCT and count.get(("x", name), 0) < per_type \
+                        and len(etree.tostring(el)) <= max_size:
+                    count[("x", name)] = count.get(("x", name), 0) + 1
+                    frags["xml"].append(copy.deepcopy(el))
+    return frags
+
+
+def canon_any(v):
+    import aasgen
+    try:
+        return json.dumps(aasgen.canon(v), sort_keys=True, default=str)
+    except Exception:  # noqa - not a metamodel object (raw dict, set of pairs, lang string set ...)
+        return repr(type(v))
+
+
+def fragment_read(fmt, frag, construct, failsafe):
+    import c09_damage as D
+    from lxml import etree
+    from basyx.aas.adapter.json import AASFromJsonDecoder, StrictAASFromJsonDecoder
+    from basyx.aas.adapter.xml import read_aas_xml_element, XMLConstructables
+    if D.HOOK is not None:
+        D.HOOK.begin(failsafe, "doc")
+    try:
+        if fmt == "json":
+            return "ok", json.loads(json.dumps(frag), cls=AASFromJsonDecoder if failsafe else StrictAASFromJsonDecoder)
+        return "ok", read_aas_xml_element(io.BytesIO(etree.tostring(frag)), getattr(XMLConstructables, construct),
+                                          failsafe=failsafe)
+    except RecursionError:
+        raise
+    except Exception as e:  # noqa
+        return "exc", e
+    finally:
+        if D.HOOK is not None:
+            D.HOOK.end()
+
+
+def fragment_campaign(chk, rng, sources, budget, seen_fail):
+    import c09_damage as D
+    from lxml import etree
+    frags = collect_fragments(sources)
+    specs = []
+    for fmt in ("json", "xml"):
+        for fi, frag in enumerate(frags[fmt]):
+            if fmt == "json":
+                wrap = {"w": [frag]}
+                nodes = D.json_nodes(frag, ("w", 0))
+                appl = D.json_applicable
+            else:
+                wrap = etree.Element("w")
+                lst = etree.SubElement(wrap, "l")
+                lst.append(copy.deepcopy(frag))
+                nodes = D.xml_nodes(wrap[0][0], (0, 0))
+                appl = D.xml_applicable
+            for path in nodes:
+                for op in appl(wrap, path):
+                    if op in ("wronglist",) or (op == "dupid" and len(path) <= 3):
+                        continue
+                    specs.append((fmt, fi, path, op))
+    chk.cov["fragment_cases_enumerated"] = len(specs)
+    if len(specs) > budget:
+        specs = rng.sample(specs, budget)
+    for fmt, fi, path, op in specs:
+        frag = frags[fmt][fi]
+        variant = rng.randrange(10 ** 6)
+        if fmt == "json":
+            d2 = D.json_damage({"w": [frag]}, path, op, variant)
+            if d2 is None or not d2["w"]:
+                continue
+            f2 = d2["w"][0]
+            construct = None
+            name = frag.get("modelType")
+        else:
+            wrap = etree.Element("w")
+            etree.SubElement(wrap, "l").append(copy.deepcopy(frag))
+            d2 = D.xml_damage(wrap, path, op, variant)
+            if d2 is None or len(d2[0]) == 0:
+                continue
+            f2 = d2[0][0]
+            name = D._lname(frag)
+            construct = XML_CONSTRUCT[name]
+            try:
+                etree.tostring(f2)
+            except Exception:  # noqa
+                continue
+        chk.seen(("fragment", fmt, name, path, op, variant), nontrivial=True)
+        chk.count(f"fragment:{fmt}:{op}")
+        k1, r1 = fragment_read(fmt, f2, construct, True)
+        k2, r2 = fragment_read(fmt, f2, construct, False)
+        fail = None
+        if k1 != "ok":
+            fail = ("fragment-failsafe-raises:" + type(r1).__name__,
+                    f"failsafe decoding of a single {name} raised {type(r1).__name__}: {str(r1)[:200]}")
+        elif k2 == "ok":
+            if canon_any(r1) != canon_any(r2):
+                fail = ("fragment-strict-differs", f"strict decoding of a single {name} returned without raising but "
+                                                   f"differs from failsafe")
+        elif not D.documented(r2):
+            fail = ("fragment-strict-raises:" + type(r2).__name__,
+                    f"strict decoding of a single {name} raised undocumented {type(r2).__name__}: {str(r2)[:200]}")
+        if fail:
+            sig = f"C09:{fmt}:{fail[0]}"
+            if sig in seen_fail:
+                seen_fail[sig]["n"] += 1
+            else:
+                text = json.dumps(f2) if fmt == "json" else etree.tostring(f2).decode()
+                seen_fail[sig] = {"n": 1, "what": fail[1] + f" [operator {op}]",
+                                  "replay": {"kind": "fragment", "fmt": fmt, "construct": construct, "data": text,
+                                             "how": "tools/c09.py replay(): fragment_read failsafe/strict"}}
+
+
 # ---------------------------------------------------------------------------------------- shrinking
 
 def shrink_case(sources, spec, kind):
@@ -534,7 +685,7 @@ def run(chk):
     from py2coq import readerflow, TranslationError
     rng = chk.rng
     quick = chk.tier == "quick"
-    n_gen, budget, n_walk, n_bytes = (10, 7000, 250, 250) if quick else (40, 60000, 2500, 3000)
+    n_gen, budget, n_walk, n_bytes, n_frag = (10, 7000, 250, 250, 2500) if quick else (40, 60000, 2500, 3000, 25000)
     # ---- tie T
     trans = None
     try:
@@ -620,6 +771,8 @@ def run(chk):
                                                  "how": "tools/c09.py replay(): bytes_oracle"}}
                 else:
                     seen_fail[sig]["n"] += 1
+        # ---- single objects through json.loads(cls=decoder) / read_aas_xml_element
+        fragment_campaign(chk, rng, sources, n_frag, seen_fail)
         for sig, f in seen_fail.items():
             chk.fail(sig, f["what"] + f" ({f['n']} cases)", f["replay"])
         # ---- walk correspondence (events of these runs are observed but belong to scenario 'walk')
@@ -694,5 +847,14 @@ def replay(path):
         f = bytes_oracle(rp["fmt"], data if rp["fmt"] == "xml" else data.decode("utf-8", "surrogatepass"), rp["wellformed"])
         print("oracle:", f)
         return 1 if f else 0
+    if rp.get("kind") == "fragment":
+        from lxml import etree
+        frag = json.loads(rp["data"]) if rp["fmt"] == "json" else etree.fromstring(rp["data"].encode())
+        k1, r1 = fragment_read(rp["fmt"], frag, rp["construct"], True)
+        k2, r2 = fragment_read(rp["fmt"], frag, rp["construct"], False)
+        print("failsafe:", k1, type(r1).__name__, "strict:", k2, type(r2).__name__)
+        import c09_damage as D
+        bad = k1 != "ok" or (k2 != "ok" and not D.documented(r2)) or (k2 == "ok" and canon_any(r1) != canon_any(r2))
+        return 1 if bad else 0
     print(json.dumps(r, indent=1)[:3000])
     return 1
